@@ -658,9 +658,13 @@ func (s *AbsfsNFS) RemoveWithContext(ctx context.Context, dir *NFSNode, name str
 		return fmt.Errorf("remove: failed to remove %s: %w", path, err)
 	}
 	// Invalidate caches
+	// The removed object may have been a directory: negative entries (and anything else)
+	// cached below it describe paths that no longer resolve the same way.
+	s.attrCache.InvalidateTree(path)
 	s.attrCache.Invalidate(path)
 	s.attrCache.Invalidate(dir.path)
 	if s.dirCache != nil {
+		s.dirCache.InvalidateTree(path)
 		s.dirCache.Invalidate(dir.path)
 	}
 	return nil
